@@ -238,6 +238,7 @@ def drive(ctx, strategy, body, max_examples, *, shrink=None, rounds=3, name="cas
 
     if shrink is None:
         shrink = True
+    _set_shrink_budget(ctx.tier)
     phases = [Phase.explicit, Phase.generate, Phase.target]
     if shrink:
         phases.append(Phase.shrink)
@@ -281,6 +282,17 @@ def drive(ctx, strategy, body, max_examples, *, shrink=None, rounds=3, name="cas
         break
 
 
+def _set_shrink_budget(tier):
+    """Bound the time Hypothesis spends shrinking (its own cap is 5 minutes)."""
+    try:
+        from hypothesis.internal.conjecture import engine
+
+        budget = int(os.environ.get("VERIF_SHRINK_S", "20" if tier == "quick" else "120"))
+        engine.MAX_SHRINKING_SECONDS = budget
+    except Exception:
+        pass
+
+
 def drive_machine(ctx, machine_cls, max_examples, step_count, name="machine"):
     """Run a RuleBasedStateMachine; the machine reports through ``machine_cls.ctx``."""
     import hypothesis
@@ -288,6 +300,7 @@ def drive_machine(ctx, machine_cls, max_examples, step_count, name="machine"):
     from hypothesis.stateful import run_state_machine_as_test
 
     machine_cls.ctx = ctx
+    _set_shrink_budget(ctx.tier)
     sett = settings(
         max_examples=max_examples,
         stateful_step_count=step_count,
